@@ -151,3 +151,69 @@ impl Engine for CrashEngine {
     }
   }
 }
+
+pub struct FaultEngine;
+
+impl Engine for FaultEngine {
+  type Case = crate::e1_fault::FaultCase;
+  fn name(&self) -> &'static str {
+    "e1.fault"
+  }
+  fn level(&self) -> &'static str {
+    "fault_enumeration"
+  }
+  fn generate(&self, rng: &mut Rng, thorough: bool) -> Self::Case {
+    crate::e1_fault::gen_case(rng, thorough)
+  }
+  fn execute(&self, case: &Self::Case, wroot: &Path, stats: &mut Stats) -> (Vec<Violation>, Vec<String>) {
+    let r = crate::e1_fault::run_case(case, wroot, stats);
+    stats.add("steps", case.prefix.len() as u64 + 1);
+    (r.violations, r.trace)
+  }
+  fn shrink(&self, case: &Self::Case) -> Vec<Self::Case> {
+    crate::e1_fault::shrink_candidates(case)
+  }
+  fn pin(&self, case: &Self::Case, wroot: &Path) -> Self::Case {
+    let mut st = Stats::default();
+    let r = crate::e1_fault::run_case(case, wroot, &mut st);
+    let mut c = case.clone();
+    if let Some(p) = r.pin {
+      c.pin = Some(p);
+    }
+    c
+  }
+  fn sample(&self, case: &Self::Case) -> Value {
+    crate::e1_fault::sample_json(case)
+  }
+  fn rule(&self) -> String {
+    "seeded fault-free prefix + one target call (add/delete/commit/rollback/compact) on FsStorage+SimFs; every fault-eligible FS primitive of the target (open, read, write, set_len, fsync, dir fsync, rename, unlink, mkdir) x {EIO before effect, EIO after effect, ENOSPC with partial write and sticky follow-up failures}; pairs: second fault at a later primitive of the faulted execution (error path included); an evaluation is one full re-execution under one fault plan; distinct = distinct (profile, prefix kinds, target) shapes, sites = distinct <target, fault kind@primitive> combinations that fired".into()
+  }
+  fn assumptions(&self) -> Vec<String> {
+    vec![
+      "a failing storage call fails cleanly (error returned; effect either absent or complete; ENOSPC writes apply a prefix)".into(),
+      "faults stop when the target call returns; the retry runs on healthy storage".into(),
+      "double faults are judged by the narrow oracle of the property (on-disk index opens, names no missing file, shows pre- or post-state)".into(),
+    ]
+  }
+  fn real_vs_stub(&self) -> Value {
+    e1_real_vs_stub()
+  }
+  fn budget(&self, thorough: bool) -> (u64, f64) {
+    if thorough {
+      (100_000, 900.0)
+    } else {
+      (100_000, 40.0)
+    }
+  }
+  fn probes(&self) -> Vec<&'static str> {
+    vec![
+      "fault.eio_before",
+      "fault.eio_after",
+      "fault.enospc",
+      "fault.enospc_followup_failures",
+      "probe.commit_retried_after_fault",
+      "probe.second_fault_in_error_path",
+      "probe.queue_checked_via_restart",
+    ]
+  }
+}
